@@ -421,6 +421,10 @@ func runC20(r *Run) {
 	r.rule("R6", "function-valued Config fields the middleware calls are never nil (E1): set by configDefault on every path, also when no config is passed", func() {
 		configFuncFieldsRule(r, encPkg, "encryptcookie")
 	})
+
+	r.rule("R7", "per-request code never appends into the configuration's slices: no append in the handler or its closures on a slice that can share its backing array with a Config field (value flow through variables, re-slicing and append; E3)", func() {
+		configSlicesNotAppendedRule(r, encPkg, "encryptcookie")
+	})
 }
 
 // isCfgNextSkip: this c.Next() call sits on the `cfg.Next(c) == true` edge (documented bypass).
